@@ -447,6 +447,8 @@ def gen_passive(rng, opts):
             g.add({"type": "Loss", "modes": [m], "params": {"transmissivity": _r(rng.uniform(0.3, 0.95))}})
     elif loss == "lossy_if":
         sv = [_r(rng.uniform(0.4, 1.0)) for _ in range(d)]
+        if rng.chance(0.5):
+            sv[rng.randrange(d)] = 1.0  # a lossless channel: the boundary of the documented [0, 1] domain
         g.add({"type": "LossyInterferometer", "modes": None, "params": {"matrix": {"$": "lossy", "n": d, "sv": sv, "seed": rng.randrange(1000)}}})
     n_meas = rng.randrange(0, 3) if d > 1 and opts.get("mid", True) and prep == "number" else 0
     for seg in range(n_meas + 1):
